@@ -47,7 +47,7 @@ completed sync truncates it), the rollback log is not inspected -/
 def lineParts (items : List (Key × Stored ByteArray ByteArray)) :
     Parts (List (Key × Stored ByteArray ByteArray)) Unit :=
   { treeOpen := fun _ _ _ _ _ _ => (.ok items, [.read .bbn, .read .ln]),
-    recover := fun _ _ _ ht _ h => (.ok (ht, h), []),
+    recover := fun _ _ _ ht _ h => (.ok (ht, h.metaBytes), []),
     rollbackRead := fun _ _ _ _ => (.ok (), []) }
 
 def openpathStep1 (line : String) : String :=
